@@ -172,7 +172,7 @@ class OperationGroup(ContextMixin, ContentMixin):
                     storage_limit if storage_limit is not None else default_storage_limit(x, constants),
                 )
             ),
-            'fee': lambda i, x: str(default_fee(x, gas_limit, minimal_nanotez_per_gas_unit) if i == 0 else 0),
+            'fee': lambda i, x: str(default_fee(x, gas_limit, minimal_nanotez_per_gas_unit)),
         }
 
         def fill_content(idx, content):
@@ -182,8 +182,17 @@ class OperationGroup(ContextMixin, ContentMixin):
                     content[k] = v(idx, content) if callable(v) else v
             return content
 
+        contents = [fill_content(idx=i, content=x) for i, x in enumerate(self.contents)]
+
+        # the first content carries the fee of every content the fee was chosen for
+        if contents and self.contents[0].get('fee') in ['', '0']:
+            for i in range(1, len(contents)):
+                if self.contents[i].get('fee') in ['', '0']:
+                    contents[0]['fee'] = str(int(contents[0]['fee']) + int(contents[i]['fee']))
+                    contents[i]['fee'] = '0'
+
         return self._spawn(
-            contents=[fill_content(idx=i, content=x) for i, x in enumerate(self.contents)],
+            contents=contents,
             protocol=protocol,
             chain_id=chain_id,
             branch=branch,
